@@ -33,6 +33,7 @@ func init() {
 			{ID: "C10.S2", Alias: "C01.R4"},
 			{ID: "C10.S3", Alias: "C03.R6"},
 			{ID: "C10.S4", Alias: "C01.R3"},
+			{ID: "C10.S5", Doc: "an error packet is one packet: every frame of a message carries the id and kind newFrameLocked gave it", Alias: "C07.R2"},
 		},
 	})
 }
